@@ -10,6 +10,12 @@ Definition is_panicb {A} (o : outcome A) : bool := match o with Panic _ => true 
 Definition is_errb {A} (o : outcome A) : bool := match o with Err _ => true | _ => false end.
 
 Definition isnil {A} (l : list A) : bool := match l with [] => true | _ => false end.
+Fixpoint obytes_eqb_pre (a b : list N) : bool :=
+  match a, b with
+  | [], [] => true
+  | x :: a', y :: b' => (x =? y) && obytes_eqb_pre a' b'
+  | _, _ => false
+  end.
 
 (* ------------------------------------------------------------------ C02: everything emitted is a well-formed packet *)
 Definition mon_no_stray (ws : list wev) : bool :=
@@ -255,6 +261,40 @@ Fixpoint mon_c07 (phase : N) (ws : list wev) : bool :=
   | _ :: rest => mon_c07 phase rest
   end.
 
+(* the CONNECT on the wire reflects the configured options: every field the protocol version carries
+   equals the option; clean start follows the rejoin policy and the connection history ([cb] = a
+   CONNACK was accepted since the last reset); a configured client id is used verbatim *)
+Definition oN_eqb (a b : option N) : bool :=
+  match a, b with Some x, Some y => x =? y | None, None => true | _, _ => false end.
+Definition obool_eqb (a b : option bool) : bool :=
+  match a, b with Some x, Some y => Bool.eqb x y | None, None => true | _, _ => false end.
+Definition olist_eqb (a b : option (list N)) : bool :=
+  match a, b with Some x, Some y => obytes_eqb_pre x y | None, None => true | _, _ => false end.
+Definition connect_faithful (v5 : bool) (o : connect_opts) (cb : bool) (c : connect) : bool :=
+  let e := to_connect_packet o cb in
+  (con_keep_alive c =? con_keep_alive e) && Bool.eqb (con_clean_start c) (con_clean_start e) &&
+  match co_client_id o with Some i => olist_eqb (con_client_id c) (Some i) | None => true end &&
+  olist_eqb (con_username c) (con_username e) && olist_eqb (con_password c) (con_password e) &&
+  match con_will c, con_will e with
+  | Some w, Some w' => obytes_eqb_pre (pub_topic w) (pub_topic w') && (pub_qos w =? pub_qos w') && Bool.eqb (pub_retain w) (pub_retain w') &&
+                       olist_eqb (pub_payload w) (pub_payload w')
+  | None, None => true
+  | _, _ => false
+  end &&
+  (if v5 then
+     oN_eqb (con_sei c) (con_sei e) && obool_eqb (con_rri c) (con_rri e) && obool_eqb (con_rpi c) (con_rpi e) &&
+     oN_eqb (con_receive_max c) (con_receive_max e) && oN_eqb (con_tam c) (con_tam e) && oN_eqb (con_max_packet c) (con_max_packet e) &&
+     oN_eqb (con_will_delay c) (con_will_delay e) && olist_eqb (con_auth_method c) None
+   else true).
+Fixpoint mon_c07_faithful (v5 : bool) (o : connect_opts) (cb : bool) (ws : list wev) : bool :=
+  match ws with
+  | [] => true
+  | WSent _ (Connect c) _ :: rest => connect_faithful v5 o cb c && mon_c07_faithful v5 o cb rest
+  | WRecv _ (Connack c) :: rest => mon_c07_faithful v5 o (cb || (ca_rc c =? 0)) rest
+  | WReset _ :: rest => mon_c07_faithful v5 o false rest
+  | _ :: rest => mon_c07_faithful v5 o cb rest
+  end.
+
 (* the engine is Connected only after a successful CONNACK was fed to it on this connection *)
 Fixpoint mon_c07_connected (seen_connack : bool) (ws : list wev) : bool :=
   match ws with
@@ -279,6 +319,40 @@ Definition mon_c08_wakeup (ws : list wev) : bool :=
                         then match t with Some t' => t' <=? now | None => false end
                         else true
                     | _ => true end) ws.
+
+(* timers honoured: the reported next service time is never later than a deadline the engine is known
+   to hold: the CONNACK deadline given at open (PendingConnack), the PINGRESP deadline and (unless a write
+   is pending) the next ping time of the snapshot (Connected), and w + T for every still incomplete
+   operation whose acknowledged packet was completely written on this connection at w with ack timeout T
+   (Connected / PendingDisconnect); "never" counts as later than everything *)
+Definition le_opt (r : option N) (bound : N) : bool := match r with Some t => t <=? bound | None => false end.
+Fixpoint mon_c08_timers (cdl : option N) (tmo : list (N * N)) (written : list (N * N)) (ws : list wev) : bool :=
+  match ws with
+  | [] => true
+  | WSubmit _ id _ (Some d) :: rest => mon_c08_timers cdl (insert id d tmo) written rest
+  | WCall _ (EvOpen _ d) _ _ :: rest => mon_c08_timers (Some d) tmo [] rest
+  | WClose _ _ :: rest => mon_c08_timers None tmo [] rest
+  | WReset _ :: rest => mon_c08_timers None [] [] rest
+  | WSent now p (Some id) :: rest =>
+      match p, packet_pid p with
+      | Publish _, Some _ | Subscribe _, Some _ | Unsubscribe _, Some _ | Pubrel _, Some _ => mon_c08_timers cdl tmo ((id, now) :: written) rest
+      | _, _ => mon_c08_timers cdl tmo written rest
+      end
+  | WDone _ id _ :: rest => mon_c08_timers cdl tmo (filter (fun '(i, _) => negb (i =? id)) written) rest
+  | WNst _ r sn :: rest =>
+      let acks := forallb (fun '(id, w) => match lookup id tmo with
+                                           | Some d => if (d <? 4611686018427387904) && mem id (sn_ops sn) then le_opt r (w + d) else true
+                                           | None => true end) written in
+      (match sn_st sn with
+       | PendingConnack => match cdl with Some d => le_opt r d | None => true end
+       | Connected =>
+           match sn_ping_to sn with Some p => le_opt r p | None => true end &&
+           (if sn_pwc sn then true else match sn_next_ping sn with Some n => le_opt r n | None => true end) && acks
+       | PendingDisconnect => acks
+       | _ => true
+       end) && mon_c08_timers cdl tmo written rest
+  | _ :: rest => mon_c08_timers cdl tmo written rest
+  end.
 
 (* no idle spinning: "service me now" followed by a service call at that instant which changes
    nothing *)
@@ -677,8 +751,10 @@ Definition all_monitors (cfg : config) (ws : list wev) : list (N * bool) :=
     (602, mon_c06_retx [] ws);
     (701, mon_c07 4 ws);
     (702, mon_c07_connected false ws);
+    (703, mon_c07_faithful v5 (cf_connect cfg) false ws);
     (801, mon_c08_wakeup ws);
     (802, mon_c08_spin None ws);
+    (803, mon_c08_timers None [] [] ws);
     (901, mon_c09_recvmax 65535 ws);
     (902, if cf_drain_one cfg then mon_c09_slowstart false dummy [] ws else true);
     (1001, mon_c10 [] 0 0 false ws);
